@@ -1,7 +1,7 @@
 import CssVerif.Lemmas.Normalize
 import CssVerif.Lemmas.SheetSpecNoC
 import CssVerif.Lemmas.SheetSpecEx
-import CssVerif.Gen.C04Margins
+import CssVerif.Gen.C02Margins
 /-!
 # C02 — the parsed DOM is the same for every way of writing a well-formed sheet
 
